@@ -1,11 +1,14 @@
 import MW.Drv.Amt
+import MW.Drv.Bip32
 open MW
 structure DSt where
   sAmt : Drv.Amt.St := Drv.Amt.init
+  sBip32 : Drv.Bip32.St := Drv.Bip32.init
 
 def dstep (st : DSt) (line : String) : DSt × String :=
   match (line.trimAscii.toString.splitOn " ").filter (· ≠ "") with
   | "amt" :: args => let (s, o) := Drv.Amt.step st.sAmt args; ({ st with sAmt := s }, o)
+  | "bip32" :: args => let (s, o) := Drv.Bip32.step st.sBip32 args; ({ st with sBip32 := s }, o)
   | ["reset"] => ({}, "ok")
   | _ => (st, "bad-engine")
 
